@@ -22,9 +22,9 @@ def mut(mid, prop, rule, file, old, new, mention=(), expect=None):
     )
 
 
-def mut2(mid, prop, rule, edits, mention=(), expect=None):
-    """register a multi-edit mutant"""
-    M.append({"id": mid, "prop": prop, "rule": rule, "mention": list(mention), "edits": edits, "expect": expect})
+def mut2(mid, prop, rule, edits, mention=(), expect=None, base=None):
+    """register a multi-edit mutant (optionally on top of a packaged behaviour-preserving refactoring)"""
+    M.append({"id": mid, "prop": prop, "rule": rule, "mention": list(mention), "edits": edits, "expect": expect, "base": base})
 
 
 CST = "cdd/shared/cst_utils.py"
@@ -1707,4 +1707,59 @@ mut(
     "            elif any(filter(line.startswith, NON_NUMPYDOC_TOKENS_SET)):\n",
     "            elif any(line.startswith(tok) for tok in NON_NUMPYDOC_TOKENS_SET):\n",
     expect="ok",
+)
+
+
+# ------------------------------------------------------------------ breaks applied ON TOP OF a harmless refactoring
+# (the refactoring alone is silent — tools/regress_neutral.sh; with the break the check must still report it)
+mut2(
+    "c17-helper-extracted-then-guard-weakened",
+    "C17",
+    "C17.exec",
+    [{"file": "cdd/compound/sync_properties.py", "old": "    if input_eval:\n", "new": "    if input_eval or input_param.endswith(\"_choices\"):\n"}],
+    mention=("input_eval",),
+    base="C17_1",
+)
+mut2(
+    "c13-helper-extracted-then-guard-weakened",
+    "C13",
+    "C13.eval",
+    [{"file": "cdd/compound/sync_properties.py", "old": "    if input_eval:\n", "new": "    if input_eval or input_param.endswith(\"_choices\"):\n"}],
+    base="C17_1",
+)
+mut2(
+    "c19-refusal-helper-then-only-for-class-emit",
+    "C19",
+    "C19.guard",
+    [{"file": "cdd/__main__.py", "old": "        if args.phase == 0:  # later phases update the file written by phase 0\n", "new": "        if args.phase == 0 and args.emit_name == \"class\":\n"}],
+    base="C19_4",
+)
+mut2(
+    "c20-gate-helper-then-whitelist-wins",
+    "C20",
+    "C20.gate",
+    [{"file": "cdd/compound/exmod.py", "old": "    return mod_path not in omit and (not only or mod_path in only)\n", "new": "    return mod_path in only if only else mod_path not in omit\n"}],
+    base="C20_2",
+)
+mut2(
+    "c05-pk-helper-then-marked-without-absence-test",
+    "C05",
+    "C05.pk",
+    [{"file": "cdd/sqlalchemy/utils/emit_utils.py", "old": "        candidate_pks: List[str] = [\n            param_name\n", "new": "        if force_pk_id and \"id\" in params:\n            _mark_param_as_primary_key(params[\"id\"])\n        candidate_pks: List[str] = [\n            param_name\n"}],
+    base="C05_1",
+)
+mut2(
+    "c02-zip-pairing-then-padding-on-the-right",
+    "C02",
+    "C02.align.parse",
+    [{"file": "cdd/function/parse.py", "old": "[None] * diff + cur_defaults", "new": "cur_defaults + [None] * diff"}],
+    mention=("LEFT",),
+    base="C02_2",
+)
+mut2(
+    "c09-loop-driver-then-skips-blank-chunks",
+    "C09",
+    "C09.lines",
+    [{"file": "cdd/shared/cst_utils.py", "old": "    for statement in scanned:\n        cst_parse_one_node(statement, state=state)\n", "new": "    for statement in scanned:\n        if not statement.strip():\n            continue\n        cst_parse_one_node(statement, state=state)\n"}],
+    base="C09_1",
 )
